@@ -178,6 +178,10 @@ def gen_jura_order(rng, malformed=False, grid=GRID):
         ot = dict(Limit=dict(tif=tif))
     else:
         trig = rng.choice(grid)
+        if rng.random() < 0.3:
+            # a price with nine decimals (at most 15 significant digits, so every JSON parser reads it back exactly): wire
+            # formats that keep "enough" decimals are a classic way to change a price in transit
+            trig = float("%.9f" % (trig + rng.randint(1, 999) * 1e-9))
         ot = dict(Trigger=dict(trigger_px=f2b(trig), is_market=rng.random() < 0.5, tpsl=rng.choice(["Tp", "Sl"])))
     o = dict(asset=asset, is_buy=is_buy, limit_px=fmt_px(px), sz=sz, reduce_only=rng.random() < 0.2,
              cloid=rng.choice([None, None, "c1", "xyz"]), order_type=ot)
